@@ -4,6 +4,7 @@
 set -u
 export GOFLAGS=-mod=mod GOPROXY=off GOSUMDB=off GOTOOLCHAIN=local GOWORK=off
 what=$1; props=$2; shift 2
+case "$what" in revert:*) ;; /*) ;; *) what="$PWD/$what";; esac
 d=$(mktemp -d /var/tmp/lcv.XXXXXX)
 trap 'rm -rf "$d"' EXIT
 rsync -a --exclude .git /repo/ "$d/"
